@@ -665,7 +665,9 @@ def f_lazy_streams():
     rest = list(g)
     again = list(g)
     m = map(str, iter([1, 2]))
-    return first, second, next(sq), next(sq), list(_it.islice(_it.count(10, 5), 3)), a, rest, again, next(m), list(m), next(iter([]), 'dflt'), next((x for x in _it.count() if x * x > 50))
+    numbered = dict(zip('abc', _it.count()))
+    pairs = list(zip(_it.count(10), 'xy'))
+    return numbered, pairs, first, second, next(sq), next(sq), list(_it.islice(_it.count(10, 5), 3)), a, rest, again, next(m), list(m), next(iter([]), 'dflt'), next((x for x in _it.count() if x * x > 50))
 
 
 class _Bag:
